@@ -29,6 +29,7 @@ def expectedSites : List (String × String) :=
   [("chansend input/ast/iter_visitor.go IterVisitor.send", "one producer, one consumer, FIFO channel: document order (assumed of Go channels; repeat stream)"),
    ("env op/circle.go CircleMember.Head maps.Values", "unused by any command"),
    ("env op/circle.go CircleMember.Keys maps.Keys", "feeds a Set (membership only) or chain_order_irrelevant"),
+   ("env op/op.go Meta.MarshalYAML maps.Keys", "meta_marshal_order_irrelevant (the keys are sorted before use)"),
    ("go input/ast/iter_visitor.go IterVisitor.All", "single producer goroutine of the channel above"),
    ("range-chan input/ast/iter_visitor.go IterVisitor.All s.nodeC", "FIFO consumer"),
    ("range-chan input/ast/iter_visitor.go IterVisitor.All s.nodeC", "drain on early exit"),
@@ -41,12 +42,14 @@ def expectedSites : List (String × String) :=
    ("range-map note/accidental.go NewAccidental accidentalStringMap", "accidental_order_irrelevant"),
    ("range-map note/degree.go Degree.Semitone degreeSemitoneMap", "semitone_order_irrelevant"),
    ("range-map op/circle.go CircleMember.String c.scales", "only in --debug log records on stderr"),
+   ("range-map op/op.go Meta.MarshalYAML m", "meta_marshal_order_irrelevant (does any text begin with a line break?)"),
    ("range-map op/scale.go AllScales keySignatures", "listings_sorted"),
    ("range-map op/scale.go keySignatures keyStringSignatures", "key_signature_map_order_irrelevant"),
    ("range-map op/velocity.go GetDynamicSignStrings stringDynamicSignMap", "only in the --velocity usage text (not a data-producing command)"),
    ("range-map util/conv.go InverseMap d", "inverse_maps_order_irrelevant"),
    ("range-map util/set.go Set.All s", "callers: chain_order_irrelevant, listings_sorted"),
    ("sort cmd/info.go infoKeyCmdConv slices.Sort", "the sort listings_sorted relies on"),
+   ("sort op/op.go Meta.MarshalYAML slices.Sorted", "the sort meta_marshal_order_irrelevant relies on"),
    ("sort op/scale.go AllScales slices.SortFunc", "the sort listings_sorted relies on")]
 
 /-- **the list of order-sensitive sites regenerated from /repo is exactly the list accounted for here**: a new map
@@ -195,6 +198,15 @@ def validateWith (d : Dict) (order : List ChordDef) : Bool :=
 /-- **`Map.validate`**: whether a dictionary is accepted does not depend on the order its chords are checked in -/
 theorem validation_order_irrelevant (d : Dict) (order : List ChordDef) (hp : order.Perm d.entries) :
     validateWith d order = d.validate := all_perm _ hp
+
+/-- **`Meta.MarshalYAML`** (added by the D21 fix): whether some text begins with a line break, and the sorted key list,
+do not depend on the order the map is walked in -/
+theorem meta_marshal_order_irrelevant (o₁ o₂ : List (String × String)) (hp : o₁.Perm o₂) :
+    o₁.any (fun kv => kv.2.startsWith "\n") = o₂.any (fun kv => kv.2.startsWith "\n") ∧
+    (o₁.map (·.1)).mergeSort (fun a b => decide (a ≤ b)) = (o₂.map (·.1)).mergeSort (fun a b => decide (a ≤ b)) := by
+  refine ⟨?_, sorted_perm (hp.map (·.1))⟩
+  rw [Bool.eq_iff_iff]; simp only [List.any_eq_true]
+  exact ⟨fun ⟨a, ha, h⟩ => ⟨a, hp.mem_iff.mp ha, h⟩, fun ⟨a, ha, h⟩ => ⟨a, hp.mem_iff.mpr ha, h⟩⟩
 
 /-! non-vacuity: orders that differ -/
 example : (degreeSemitoneTable.reverse).Perm degreeSemitoneTable ∧ degreeSemitoneTable.reverse ≠ degreeSemitoneTable :=
